@@ -2,15 +2,27 @@
 from . import core, judge, render_replay
 from . import tlc as T
 
-CONFIGS = {"quick": [dict(name="render-t6", MaxN=6, MaxHide=2)], "thorough": [dict(name="render-t8", MaxN=8, MaxHide=2)]}
+def big(name, lo, hi, instances, per):
+    return dict(name=name, MaxN=3, MaxHide=1, big=dict(BigMin=lo, BigMax=hi, Instances=instances, PerShape=per))
+
+
+CONFIGS = {"quick": [dict(name="render-t6", MaxN=6, MaxHide=2), big("big-render-60", 10, 60, 48, 12), big("big-render-200", 100, 200, 6, 6)],
+           "thorough": [dict(name="render-t8", MaxN=8, MaxHide=2), big("big-render-80", 10, 80, 400, 20), big("big-render-300", 100, 300, 24, 10)]}
 
 
 def tlc_cfg(c):
+    if c.get("big"):
+        consts = {"Nil": 0, "MaxN": c["MaxN"], "MaxHide": c["MaxHide"]}
+        consts.update(c["big"])
+        return T.cfg_text(consts, init="BigInit", next_="BigNext", view="View", properties=("Thm_Rows",), action_constraints=("Emit",), deadlock=False)
     return T.cfg_text({"Nil": 0, "MaxN": c["MaxN"], "MaxHide": c["MaxHide"]}, view="View",
                       properties=("Thm_Rows", "Lem_Decode"), action_constraints=("Emit",), deadlock=False)
 
 
 def run_model(c, coverage=False):
+    if c.get("big"):
+        return T.run_vectors("MC_RenderBig", tlc_cfg(c), c["name"], lambda st: st["distinct"] * c["big"]["PerShape"], workers=1,
+                             extra=("-seed", str(17 + core.seed())))
     return T.run_vectors("MC_Render", tlc_cfg(c), c["name"], lambda st: st["generated"] - st["distinct"])
 
 
